@@ -41,3 +41,22 @@ Proof. vm_compute. reflexivity. Qed.
 
 Theorem seen_set_variant_is_the_code : prune_visits_once = true -> ~ emptied_parents_pruned prune_visits_once.
 Proof. intros ->. exact emptied_parents_pruned_seen_set_refuted. Qed.
+
+(* ---- finding volatile-redeclared-regular (C07): a VOLATILE row declared again as a regular output ------------------- *)
+
+(* "a state that File.before_delete queues survives File.initialize_row(PLANNED)" (the output is declared again by
+   define_step / amend_step): true for BUILT / OUTDATED (the keep rule), FALSE for VOLATILE: the row becomes PLANNED
+   without hash, which neither before_delete nor revert_optional_steps queues; if the step does not run again
+   (dropped, or optional and not needed) the file written while the path was volatile stays on disk for good. *)
+Definition redeclare_keeps_cleanup_memory : Prop :=
+  forall s, queued_on_delete s = true -> queued_on_delete (init_row_state FS_PLANNED s) = true.
+
+Theorem redeclare_keeps_cleanup_memory_hashed s :
+  memN s bd_hashed_states = true -> queued_on_delete (init_row_state FS_PLANNED s) = true.
+Proof.
+  intros H. apply (memN_forallb (fun x => queued_on_delete (init_row_state FS_PLANNED x)) s _ H).
+  vm_compute. reflexivity.
+Qed.
+
+Theorem redeclare_keeps_cleanup_memory_refuted : ~ redeclare_keeps_cleanup_memory.
+Proof. intros H. specialize (H FS_VOLATILE eq_refl). vm_compute in H. discriminate H. Qed.
